@@ -357,7 +357,7 @@ class ModelBackend(Backend):
         w.log = []
         mark = len(w.ops)
         w.cwd = self.p(cwd) if cwd is not None else self.base
-        rp = self.p(root) if cwd is None else root  # with cwd given, root is passed through verbatim (relative)
+        rp = None if root is None else (self.p(root) if cwd is None else root)  # with cwd given, root is passed verbatim
         ap = lambda x: None if x is None else (x if cwd is not None else self.p(x))
         creator = dict(author_name=o.get("author_name"), author_email=o.get("author_email"),
                        author_phone=o.get("author_phone"), author_role=o.get("author_role"),
@@ -696,7 +696,7 @@ class RealBackend(Backend):
 
     # ---- commands
     def argv(self, cmd, root="R", cwd=None, **o):
-        rp = self.p(root) if cwd is None else root
+        rp = None if root is None else (self.p(root) if cwd is None else root)
         ap = lambda x: None if x is None else (x if cwd is not None else self.p(x))
         a = [cmd]
         if cmd in ("create", "flatten"):
